@@ -269,6 +269,21 @@ func runC11(c *Ctx) {
 		r.Count(fmt.Sprint(in), true, "session")
 		r.Traces++
 	}
+	// a Join/List made BEFORE the server announces its limits, a 005 that shrinks them, then bulk Join/List: the batching uses
+	// the limit in force when each call is made
+	for _, tok := range []string{"NICKLEN=100 HOSTLEN=200", "LINELEN=200", "LINELEN=1024"} {
+		in := map[string]string{"nick": "me", "check": "c11"}
+		var many []string
+		for k := 0; k < 40; k++ {
+			many = append(many, fmt.Sprintf("#channel-number-%02d", k))
+		}
+		steps := []string{"R:srv 001 me :Welcome", "CJoin\x00#first\x00#second", "CList\x00#first", "R:srv 005 me " + tok + " :are supported by this server", "D",
+			"CJoin\x00" + strings.Join(many, "\x00"), "CList\x00" + strings.Join(many, "\x00"), "D"}
+		stepsToIn(in, steps)
+		c.run("session", in)
+		r.Count(fmt.Sprint(in), true, "session-limit-after-first-call")
+		r.Traces++
+	}
 	// one client, two servers: limits do not carry over
 	for _, first := range []string{"LINELEN=2048", "NICKLEN=60 USERLEN=40 HOSTLEN=200", "LINELEN=300"} {
 		c.run("linelenreconnect", map[string]string{"first": first})
